@@ -249,3 +249,47 @@ Proof.
     pose proof (step03 dbg hp hpo hd HW u o u' HIP Ku Ha G' H) as K'. split; [exact K'|].
     apply (pnr_pn u' (proj1 K')). exact (pn_step dbg hp hpo hd HW u o u' HIP Ku Ha G' H (proj1 (pnr_pn u (proj1 Ku)) Pu)).
 Qed.
+
+(* ---------- a history with a file: text, joins and a path setter ---------- *)
+From Coq Require Import String.
+From RU Require Import Proofs.C02_AuthMain Proofs.C03_ReachEx.
+Open Scope string_scope.
+
+Ltac exj_join txt :=
+  match goal with R : reach03j ?d ?hp ?hpo ?hd ?b |- _ =>
+    let E := fresh "E" in let u1 := fresh "u" in let E' := fresh "E" in
+    destruct (parse_url d hp hpo hd None (Some b) (B txt)) as [u1| |] eqn:E; [|vm_compute in E; discriminate ..];
+    pose proof E as E'; vm_compute in E'; injection E' as <-;
+    match type of E with parse_url _ _ _ _ _ _ _ = POk ?u' =>
+      let R' := fresh "R" in
+      assert (reach03j d hp hpo hd u') as R' by exact (RJ_join d hp hpo hd None b (B txt) u' R E);
+      clear R E
+    end
+  end.
+
+(* parse "file://h/a/b"; join "../c?q" -> file://h/c?q; set_path "x/../y" -> file://h/y?q;
+   join "http://g:80/z" -> http://g/z (80 is the default: dropped); join "//k:81" -> http://k:81/ *)
+Definition reach03j_example_stmt : Prop :=
+  exists u, reach03j true ex_hp3 ex_hp ex_hd2 u /\ ser u = B "http://k:81/".
+
+Lemma reach03j_example : reach03j_example_stmt.
+Proof.
+  destruct (parse_url true ex_hp3 ex_hp ex_hd2 None None (B "file://h/a/b")) as [u0| |] eqn:E0;
+    [|vm_compute in E0; discriminate ..].
+  assert (reach03j true ex_hp3 ex_hp ex_hd2 u0) as R0 by exact (RJ_parse true ex_hp3 ex_hp ex_hd2 None (B "file://h/a/b") u0 E0).
+  vm_compute in E0. injection E0 as <-.
+  exj_join "../c?q".
+  match goal with R : reach03j ?d ?hp ?hpo ?hd ?u |- _ =>
+    destruct (apply_op d hp hpo hd u (OSetPath (B "x/../y"))) as [u2|] eqn:E2; [|vm_compute in E2; discriminate];
+    pose proof E2 as E2'; vm_compute in E2'; injection E2' as <-;
+    match type of E2 with apply_op _ _ _ _ _ _ = Some ?u' =>
+      assert (reach03j d hp hpo hd u') as R2
+        by (apply (RJ_step d hp hpo hd u (OSetPath (B "x/../y")) u' R); [cbn [op_args_ok]; usv_tac | vm_compute; reflexivity | exact E2]);
+      clear R E2
+    end
+  end.
+  exj_join "http://g:80/z".
+  exj_join "//k:81".
+  match goal with R : reach03j _ _ _ _ ?u |- _ => exists u end.
+  split; [assumption | vm_compute; reflexivity].
+Qed.
